@@ -226,6 +226,16 @@ def run(chk):
     chk.floor("C08-D1.thread", nthread, 25, "limits forwarding edges inside the grid classes")
 
     # ------------------------------------------------------------------ D2 sentinel guard, D3 lock-step
+    chk.rule("C08-D6.unlimited", "where a function that applies the limits itself has two variants of the same loop, one that reads the limit of each direction and one that does not, the "
+                                 "variant without tests is selected by `limits.empty()` and nothing weaker (a local flag counts as its initialiser)")
+    _lbd = {}
+
+    def fn_locals_by_did(f_):
+        k_ = (f_.key, f_.sig)
+        if k_ not in _lbd:
+            _lbd[k_] = {v.get("did"): v for v in f_.locals().values() if v.get("k") == "VarDecl"}
+        return _lbd[k_]
+    ndual = 0
     nread = 0
     nlock = 0
     for fn in allfns:
@@ -264,6 +274,35 @@ def run(chk):
         if not reads:
             continue
         chk.saw(fn)
+        # D6: the branch that does the work without looking at the limits is taken for empty limits only
+        for a in walk(fn.body, into_lambda=False):
+            if a.get("k") != "IfStmt" or a.get("cond") is None or a.get("then") is None or a.get("else") is None or not is_reachable(fn, a["cond"]):
+                continue
+            rt = [r for r in reads if any(x is r for x in walk(a["then"]))]
+            re_ = [r for r in reads if any(x is r for x in walk(a["else"]))]
+            if bool(rt) == bool(re_):
+                continue
+            # loops on both sides: two variants of the same work
+            def has_loop(b):
+                return any(x.get("k") in ("ForStmt", "WhileStmt", "CXXForRangeStmt") for x in [b] + list(walk(b)))
+            if not (has_loop(a["then"]) and has_loop(a["else"])):
+                continue
+            cnd = strip(a["cond"])
+            # a local flag stands for its initialiser
+            seen_d = set()
+            while cnd is not None and cnd.get("k") == "DeclRefExpr" and cnd.get("did") in fn_locals_by_did(fn) and cnd["did"] not in seen_d:
+                seen_d.add(cnd["did"])
+                d_ = fn_locals_by_did(fn)[cnd["did"]]
+                cnd = strip(d_["c"][0]) if d_.get("c") else None
+            ct = txt(cnd).replace(" ", "") if cnd is not None else "?"
+            lim_names = {txt(strip(r["c"][1] if r.get("k") == "CXXOperatorCallExpr" and r.get("op") == "[]" else r["c"][0])) for r in reads if r.get("k") in ("CXXOperatorCallExpr", "ArraySubscriptExpr") and r.get("op", "[]") == "[]"}
+            lim_names |= {txt(strip(call_object(strip(it["c"][0])))) for it in iters.values()}
+            unlimited_then = not rt
+            want = {("%s.empty()" % nm) if unlimited_then else ("!%s.empty()" % nm) for nm in lim_names}
+            ndual += 1
+            ok = ct in want
+            chk.ob("C08-D6.unlimited", fn.key, "the variant without limit tests is selected by the emptiness of the limits", ok, fn.loc(a),
+                   "" if ok else "the branch that never reads the limits runs when `%s`: limits that are not empty are ignored there" % ct[:90], " / ".join(sorted(want)))
         seen_txt = {}
         for r in reads:
             if not is_reachable(fn, r):
@@ -312,6 +351,7 @@ def run(chk):
                    "increment post-dominates the loop body entry")
     chk.floor("C08-D2.sentinel", nread, 12, "guarded limit-element reads")
     chk.floor("C08-D3.lockstep", nlock, 2, "lock-step limit iterators")
+    chk.floor("C08-D6.unlimited", ndual, 1, "functions with a limited and an unlimited variant of the same loop")
 
     # ------------------------------------------------------------------ D5 saturation exits
     nloops = 0
